@@ -31,7 +31,7 @@ def concurrent_writers(ctx):
     f = vlib.VERIF / "corpus" / "conc" / "rrdp-writers.ops"
     if not f.exists():
         return False
-    reps = 2 if ctx.tier == "quick" else 8
+    reps = 4 if ctx.tier == "quick" else 12
     for i in range(reps):
         tr = ctx.work / f"writers-{i}.trace"
         r = vlib.run([vlib.hbin("conc"), "--ops", str(f), "--out", str(tr), "--seed", str(int(ctx.seed) + i)], timeout=3600)
